@@ -303,6 +303,40 @@ def shared_store_lines():
     return out
 
 
+_ENV0 = None
+
+
+class _LogCapture(io.BytesIO):
+    """The byte sink behind the simulated process's stdout: complete lines become log records."""
+
+    def __init__(self, run):
+        super().__init__()
+        self._run = run
+        self._pending = b""
+
+    def write(self, b):
+        self._pending += bytes(b)
+        while b"\n" in self._pending:
+            line, self._pending = self._pending.split(b"\n", 1)
+            self._run._logfn(line.decode("utf-8", "surrogateescape"))
+        return len(b)
+
+
+class _DetNames:
+    """tempfile's candidate-name generator, seeded."""
+    characters = "abcdefghijklmnopqrstuvwxyz0123456789_"
+
+    def __init__(self, seed):
+        import random
+        self.rng = random.Random(seed)
+
+    def __iter__(self):
+        return self
+
+    def __next__(self):
+        return "".join(self.rng.choices(self.characters, k=8))
+
+
 class ForkSim:
     """Simulated fork/_exit/waitpid on top of scheduler actors."""
 
@@ -569,11 +603,25 @@ class SimRun:
             pass
         _modstate.restore()
         _modstate.reset_functions()
+        # tempfile draws its names from an OS-seeded generator: a change that starts to use it
+        # must still give one execution per seed
+        # the process environment is process-global state as well (a change may start to write to it)
+        global _ENV0
+        if _ENV0 is None:
+            _ENV0 = dict(os.environ)
+        if dict(os.environ) != _ENV0:
+            os.environ.clear()
+            os.environ.update(_ENV0)
+        import tempfile
+        self._saved_tmpnames = tempfile._name_sequence
+        tempfile._name_sequence = _DetNames(self.seed)
         self.sim.install()
         self.fs.install()
         self._installed = True
         self._saved_stderr = sys.stderr
         sys.stderr = self.stderr
+        self._saved_stdout = sys.stdout
+        sys.stdout = io.TextIOWrapper(_LogCapture(self), encoding="utf-8", errors="strict", line_buffering=True)
         try:
             self._start_server()
         except BaseException:
@@ -592,9 +640,17 @@ class SimRun:
             over.setdefault(("pygopherd", "timeout"), None)
         else:
             over.setdefault(("pygopherd", "timeout"), str(self.timeout))
+        # the repository's own logging code runs for real, towards a strict UTF-8 stdout (as a terminal or a
+        # service manager gives it) or a captured syslog(3); only the sink is ours
+        self.logmethod = over.get(("logger", "logmethod")) or ("syslog" if self.seed % 4 == 3 else "file")
+        over.setdefault(("logger", "logmethod"), self.logmethod)
         self.config = base_config(self.root, over, self.handlers)
+        if self.logmethod == "syslog":
+            import syslog
+            self._saved_syslog = (syslog.syslog, syslog.openlog)
+            syslog.openlog = lambda *a, **k: None
+            syslog.syslog = lambda *a: self._logfn(a[-1])
         pyg.logger.init(self.config)
-        pyg.logger.log = self._logfn
         pyg.initialization.init_exceptions(self.config)
         ctx = simnet.FakeTLSContext(self.net) if self.tls else None
         self.tlsctx = ctx
@@ -684,6 +740,7 @@ class SimRun:
             if isinstance(stdin, simfs.SimFile):
                 kw["stdin"] = stdin._f
             run.subprocess_calls += 1
+            run.sim.yield_point("subprocess")
             return run._real_subprocess_run(args, **kw)
 
         subprocess.run = sim_run
@@ -724,7 +781,19 @@ class SimRun:
                 subprocess.run = self._real_subprocess_run
             self.fs.uninstall()
             self.sim.uninstall()
+            if hasattr(self, "_saved_tmpnames"):
+                import tempfile
+                tempfile._name_sequence = self._saved_tmpnames
+            if _ENV0 is not None and dict(os.environ) != _ENV0:
+                os.environ.clear()
+                os.environ.update(_ENV0)
             sys.stderr = self._saved_stderr
+            if hasattr(self, "_saved_stdout"):
+                sys.stdout = self._saved_stdout
+            if getattr(self, "_saved_syslog", None):
+                import syslog
+                syslog.syslog, syslog.openlog = self._saved_syslog
+                self._saved_syslog = None
             try:
                 os.chdir(self._old_cwd)
             except (OSError, AttributeError):
